@@ -1018,7 +1018,7 @@ func c14Stress2(in *c14In) Result {
 		for deadline := time.Now().Add(20 * time.Second); time.Now().Before(deadline); time.Sleep(2 * time.Millisecond) {
 			left := false
 			for _, h := range hosts {
-				if atomic.LoadInt32(&h.Fails) != 0 {
+				if atomic.LoadInt32(&h.Fails) > 0 {
 					left = true
 				}
 			}
@@ -1537,7 +1537,7 @@ func c14Gen(r *Rand, tier string) []interface{} {
 func init() {
 	register(&Property{
 		ID: "C14", Imports: "V.Lib V.C14_Model", Judge: "judge",
-		Rule: "cases = real Proxy.ServeHTTP goroutines over a parsed proxy block, stepped by the driver through gated Select / barrier transports (every interleaving of 2 requests x outcomes x settings, random schedules of up to 5 requests on up to 3 hosts, timed schedules with real fail_timeout expiry), max_fails/max_conns parsing, single requests through the real http.Transport (answered / dropped / client cancel), free-running stress; non-trivial = a schedule in which two requests were simultaneously between Select and completion or a failure was recorded / accepted config / stress run; distinct = distinct Coq case term",
+		Rule: "cases = real Proxy.ServeHTTP goroutines over a parsed proxy block, stepped by the driver through gated Select / barrier transports (every interleaving of 2 requests x outcomes x settings, random schedules of up to 5 requests on up to 3 hosts, timed schedules with real fail_timeout expiry); refused acquisitions for each of the 7 policies (one more request than slots inside the select/acquire window, plain and with the gated policy); failures arriving while the host is already down by max_fails / a store of Unhealthy / the verdict of the real HealthCheckWorker (untimed and timed down-window probes); health verdicts before, inside (policy c14gate blocks at the entry of Policy.Select) and after a running Select, through the real worker held at gated loopback health endpoints or by the driver's own store; max_fails/max_conns parsing; single requests through the real http.Transport (answered / dropped / client cancel); free-running stress (incl. thousands of requests on 16 Ps with random outcomes, coherent in-transport samples of Conns); non-trivial = a schedule in which two requests were simultaneously between Select and completion or a failure was recorded or a health verdict was delivered / accepted config / stress run that forwarded; distinct = distinct Coq case term",
 		Gen:  c14Gen,
 		Decode: func(raw json.RawMessage) (interface{}, error) {
 			in := &c14In{}
